@@ -53,7 +53,10 @@ package performance
 //
 // The factor is 1 (a return of 0%) when prices are unchanged and the value only changed by external
 // deposits and withdrawals (v1 = v0 + inflow + outflow), and end value over start value without flows.
-//@ lemma perf_flow_only [C20]: forall v0 float64, fin float64, fout float64 :: v0 + fin != 0.0 ==> perfOf(v0, v0 + fin + fout, fin, fout) == 1.0
+// (perf_flow_only carries NO side condition: the statement promises 0% for every flow-only period, also
+// for a withdrawal from an empty portfolio or a deposit that exactly settles a negative one, where start
+// value plus inflow is zero.)
+//@ lemma perf_flow_only [C20]: forall v0 float64, fin float64, fout float64 :: perfOf(v0, v0 + fin + fout, fin, fout) == 1.0
 //@ lemma perf_no_flow [C20]: forall v0 float64, v1 float64 :: v0 != v1 ==> perfOf(v0, v1, 0.0, 0.0) == v1 / v0
 //
 // Perf (day end): days outside the reporting window AND days before the first reported period (with
